@@ -172,20 +172,28 @@ class Driver:
         self.calls = 0
 
     def ask(self, reqs):
-        """Send a batch; returns list of parsed answers (same length)."""
+        """Send a batch; returns list of parsed answers (same length).  Chunks are kept below the pipe
+        buffer size so that writer and reader cannot block each other."""
         if not reqs:
             return []
         out = []
-        CH = 2000
-        for i in range(0, len(reqs), CH):
-            chunk = reqs[i:i + CH]
-            self.p.stdin.write("".join(json.dumps(r, ensure_ascii=True) + "\n" for r in chunk))
+        lines = [json.dumps(r, ensure_ascii=True) + "\n" for r in reqs]
+        i = 0
+        n = len(lines)
+        while i < n:
+            j = i
+            size = 0
+            while j < n and (j == i or (size + len(lines[j]) < 24000 and j - i < 400)):
+                size += len(lines[j])
+                j += 1
+            self.p.stdin.write("".join(lines[i:j]))
             self.p.stdin.flush()
-            for _ in chunk:
+            for _ in range(j - i):
                 line = self.p.stdout.readline()
                 if not line:
                     raise RuntimeError("driver died")
                 out.append(json.loads(line))
+            i = j
         self.calls += len(reqs)
         return out
 
